@@ -3,6 +3,7 @@
 //!   bppmc check <id> --tier quick|thorough
 //!   bppmc replay <file>
 
+mod allocmon;
 mod api;
 mod common;
 mod engine;
@@ -13,6 +14,9 @@ mod refbp;
 mod sched;
 
 use engine::{Report, Tier};
+
+#[global_allocator]
+static ALLOC: allocmon::MonAlloc = allocmon::MonAlloc;
 
 fn usage() -> ! {
     eprintln!("usage: bppmc check <Cxx> [--tier quick|thorough] | bppmc replay <file>");
